@@ -128,12 +128,12 @@ var specs = []CheckSpec{
 	{
 		ID: "C12", Pkg: "cache",
 		Harnesses: []HarnessSpec{
-			{Fn: "VerifC12FileFault", Quick: map[string]int{"L": 2}, Thorough: map[string]int{"L": 4}, Witness: []string{"crash", "fault", "fault-hit", "put-reported-error", "overwrite-same-content", "overwrite-different-content", "after-getbytes-hit", "after-getbytes-miss", "after-getfile-hit"}},
+			{Fn: "VerifC12FileFault", Quick: map[string]int{"L": 2}, Thorough: map[string]int{"L": 4}, Witness: []string{"crash", "fault", "fault-hit", "put-reported-error", "overwrite-same-content", "overwrite-different-content", "output-trimmed-index-kept", "after-getbytes-hit", "after-getbytes-miss", "after-getfile-hit"}},
 			{Fn: "VerifC12Reader", Quick: map[string]int{"L": 2}, Thorough: map[string]int{"L": 4}, Witness: []string{"reader-fails", "seek-fails", "second-pass-shorter", "second-pass-differs", "put-reported-error"}},
 			{Fn: "VerifC12PreDamaged", Quick: map[string]int{"L": 2}, Thorough: map[string]int{"L": 4}, Witness: []string{"repaired-predamaged"}},
 		},
 		Bounds: map[string]string{
-			"quick":    "Put of <= 2 symbolic bytes over three starting states (no entry / same content / different content) plus an unrelated complete entry; one crash point after any number of Put's file operations, or one failing file operation at any index (a failing write leaves any prefix for short buffers, representative prefixes incl. every field boundary for the 175-byte index entry); source reader failing at any offset in either pass, failing Seek, shorter or different second pass; pre-damaged output files of any length <= 3 with a crash at any point",
+			"quick":    "Put of <= 2 symbolic bytes over four starting states (no entry / same content / different content / same content whose output file was trimmed while the index entry stayed) plus an unrelated complete entry; one crash point after any number of Put's file operations, or one failing file operation at any index (a failing write leaves any prefix for short buffers, representative prefixes incl. every field boundary for the 175-byte index entry); source reader failing at any offset in either pass, failing Seek, shorter or different second pass; pre-damaged output files of any length <= 3 with a crash at any point",
 			"thorough": "data <= 4 bytes",
 		},
 		Stubs: []string{"as C05"},
@@ -213,7 +213,7 @@ var specs = []CheckSpec{
 	{
 		ID: "C16", Pkg: "testscript",
 		Harnesses: []HarnessSpec{
-			{Fn: "VerifC16Update", Quick: map[string]int{"G": 2, "A": 2, "C": 1}, Thorough: map[string]int{"G": 2, "A": 3, "C": 2}, Witness: []string{"update", "no-update", "quoted-update", "rerun", "actual-has-marker"}},
+			{Fn: "VerifC16Update", Quick: map[string]int{"G": 2, "A": 2, "C": 1}, Thorough: map[string]int{"G": 2, "A": 3, "C": 2}, Witness: []string{"update", "no-update", "quoted-update", "rerun", "actual-has-marker", "cmp-from-subdirectory"}},
 		},
 		Bounds: map[string]string{
 			"quick":    "script archive with two golden entries of <= 2 symbolic bytes (+newline, or empty), one actual text on stdout (<= 2 arbitrary bytes, or a text containing a marker line with a symbolic byte), one comparison line: cmp / ! cmp / cmpenv against entry 0, entry 1 or a file outside the archive; UpdateScripts symbolic; second run of the real code on the rewritten script",
